@@ -63,7 +63,7 @@ func groupBySQLScenario(r *Run, mode string) {
 		}
 		return []octosql.Value{intv(1 + t.Draw(3)), octosql.NewTime(T(ts)), v}
 	}
-	script := GenChangelog(t.Block(8*maxSteps+10), ChangelogCfg{MaxSteps: maxSteps, Watermarked: watermarked, Retractions: true, Dups: true,
+	script := GenChangelog(t.Block(stepBlock*maxSteps+10), ChangelogCfg{MaxSteps: maxSteps, Watermarked: watermarked, Retractions: true, Dups: true,
 		Row: row, FinalWM: true, RetractSameTime: true, LateRecords: mode == "C16"})
 	key := "k"
 	if byTime {
